@@ -221,6 +221,13 @@ def run(ctx):
             engine_c.report(ctx, v3, "C02", "single-use values over return shapes")
             concurrent["single_use_shape_executions"] = su["executions"]
             total_eval += su["executions"]
+            # a long then()-series of once() stages consumed by several free-running threads: every position of the
+            # chain is handed out exactly once, counted over all callers
+            ser, v4 = engine_c.run_sched(ctx, "c13-series-stress", 96 if ctx.tier == "quick" else 1600)
+            engine_c.report(ctx, v4, "C02", "then()-series under real threads")
+            ctx.require(ser["stats"].get("series_calls", 0) > 0, "the series stress made no calls")
+            concurrent["series_stress_executions"] = ser["executions"]
+            total_eval += ser["executions"]
 
     compile_probe = None
     if ctx.prop == "C14":
